@@ -26,7 +26,10 @@ Inductive hc_case :=
          (mhs : list ((string * string) * string)) (data : option string)
 | HcMut (txn : bool) (lazy_empty : bool) (path : string) (changed : bool)
 | HcBlk (i : bk_in) (v : bk_verdict)
-| HcTx (i : tx_in) (v : tx_verdict).
+| HcTx (i : tx_in) (v : tx_verdict)
+(* block path: Block.ComputeProperties, then miner.ValidateTransactions (ValidateWrtTimeForBlock +
+   per-transaction or aggregate signature check): accepted or not *)
+| HcTxB (i : tx_in) (accepted : bool).
 
 Definition hc_table (txn : bool) : list he_entry := if txn then hf_txn else hf_block.
 
@@ -56,4 +59,5 @@ Definition hc_check (c : hc_case) : bool :=
       Bool.eqb (he_binds (hc_table txn) lazy_empty path) changed
   | HcBlk i v => Nat.eqb (hc_bk_class (bk_validate i)) (hc_bk_class v)
   | HcTx i v => Nat.eqb (hc_tx_class (tx_accept i)) (hc_tx_class v)
+  | HcTxB i accepted => Bool.eqb (Nat.eqb (hc_tx_class (tx_accept i)) 0) accepted
   end.
